@@ -74,6 +74,13 @@ pub mod qzone {
         pub fn min(self, other: Ttl) -> (r: Ttl)
             ensures r.0 == (if self.0 <= other.0 { self.0 } else { other.0 }),
         { unimplemented!() }
+
+        /// `Ord::max` likewise (not used by the code as it stands; present so that a body which
+        /// calls it is judged against the contract instead of failing to resolve the method).
+        #[verifier::external_body]
+        pub fn max(self, other: Ttl) -> (r: Ttl)
+            ensures r.0 == (if self.0 >= other.0 { self.0 } else { other.0 }),
+        { unimplemented!() }
     }
 
     // ------------------------------------------------------------------ RDATA iteration with index
